@@ -59,6 +59,14 @@ pub struct L2Case {
     /// shorter than, as long as, or longer than the source
     #[serde(default)]
     pub existing_output: Option<u32>,
+    /// how the scripted server delivers over HTTP: 0 = every body at once; 1 = bodies dribble in in small paced pieces;
+    /// 2 = the first chunk-data response breaks off after `http_k` bytes; 3 = the first chunk-data request gets no response
+    /// at all. For 2 and 3 the clone runs with `--http-retry-count 2`: a transfer failure within the retry budget is no
+    /// reason to fail (C08), so the round trip must hold all the same.
+    #[serde(default)]
+    pub http_delivery: u8,
+    #[serde(default)]
+    pub http_k: u16,
 }
 
 /// The source-describing header fields, judged by the independent decoder.
@@ -212,8 +220,18 @@ pub fn l2_roundtrip(dir: &std::path::Path, tag: &str, c: &L2Case, source: &[u8],
             }
         }
         Path2::CliHttpCli => {
-            let srv = crate::http::Server::start(Arc::new(archive.clone()), crate::http::Script::default());
+            use crate::http::{Action, Script, When};
+            let script = match c.http_delivery % 4 {
+                1 => Script { rules: vec![(When::Always, Action { pieces: vec![1 + c.http_k as usize % 977], pace_us: 200, ..Default::default() })], data_from: h.header_len as u64, max_requests: 0 },
+                2 => Script { rules: vec![(When::NthData(0), Action { cut_after: Some(c.http_k as usize), pieces: vec![5000], ..Default::default() })], data_from: h.header_len as u64, max_requests: 0 },
+                3 => Script { rules: vec![(When::NthData(0), Action { drop: true, ..Default::default() })], data_from: h.header_len as u64, max_requests: 0 },
+                _ => Script::default(),
+            };
+            let srv = crate::http::Server::start(Arc::new(archive.clone()), script);
             let mut extra = vec!["--buffered-chunks".to_string(), c.clone_buffers.to_string()];
+            if c.http_delivery % 4 >= 2 {
+                extra.extend(["--http-retry-count".to_string(), "2".to_string(), "--http-retry-delay".to_string(), "0".to_string()]);
+            }
             if c.verify_output {
                 extra.push("--verify-output".into());
             }
@@ -265,6 +283,11 @@ pub fn l2_roundtrip(dir: &std::path::Path, tag: &str, c: &L2Case, source: &[u8],
     rec.level = Some("L2");
     rec.class(format!("{:?}", c.path));
     rec.class_if(!c.delays.is_empty(), "delay_script");
+    if c.path == Path2::CliHttpCli {
+        rec.class_if(c.http_delivery % 4 == 1, "http_body_in_paced_pieces");
+        rec.class_if(c.http_delivery % 4 == 2, "http_first_data_transfer_cut_short_within_retry_budget");
+        rec.class_if(c.http_delivery % 4 == 3, "http_first_data_request_unanswered_within_retry_budget");
+    }
     if c.path != Path2::CliLib {
         rec.class_if(c.existing_output.map(|n| n as usize > source.len()).unwrap_or(false), "cloned_over_a_longer_existing_file");
         rec.class_if(c.existing_output.map(|n| n as usize <= source.len()).unwrap_or(false), "cloned_over_a_shorter_or_equal_existing_file");
@@ -434,9 +457,9 @@ pub fn l2_strategy() -> impl Strategy<Value = L2Case> {
         delay_strategy(),
         buffers_strategy(),
         any::<bool>(),
-        prop_oneof![3 => Just(None), 1 => (0u32..200).prop_map(Some), 2 => (0u32..8000).prop_map(Some)],
+        (prop_oneof![3 => Just(None), 1 => (0u32..200).prop_map(Some), 2 => (0u32..8000).prop_map(Some)], prop_oneof![3 => Just(0u8), 1 => Just(1u8), 2 => Just(2u8), 1 => Just(3u8)], prop_oneof![0u16..40, any::<u16>()]),
     )
-        .prop_map(|(source, chunker, hash_len, comp, buffers, path, delays, clone_buffers, verify_output, existing_output)| L2Case {
+        .prop_map(|(source, chunker, hash_len, comp, buffers, path, delays, clone_buffers, verify_output, (existing_output, http_delivery, http_k))| L2Case {
             source,
             cfg: ArchCfg { chunker, hash_len, comp, buffers },
             path,
@@ -444,6 +467,8 @@ pub fn l2_strategy() -> impl Strategy<Value = L2Case> {
             clone_buffers,
             verify_output,
             existing_output,
+            http_delivery,
+            http_k,
         })
 }
 
@@ -464,7 +489,7 @@ fn l2_big_strategy() -> impl Strategy<Value = L2Case> {
         .prop_map(|(chunker, seed, n, comp, path, constant_run)| {
             // a long run of a constant non-zero byte is never cut by the rolling hash: one chunk of several MiB
             let source = if constant_run { vec![Seg::Random { n: 70_000, seed }, Seg::Const { b: 0xff, n }, Seg::Random { n: 50_000, seed: seed ^ 9 }] } else { vec![Seg::Random { n, seed }, Seg::Random { n: n / 2, seed: seed ^ 5 }] };
-            L2Case { source, cfg: ArchCfg { chunker, hash_len: 64, comp, buffers: 4 }, path, delays: vec![], clone_buffers: 4, verify_output: false, existing_output: None }
+            L2Case { source, cfg: ArchCfg { chunker, hash_len: 64, comp, buffers: 4 }, path, delays: vec![], clone_buffers: 4, verify_output: false, existing_output: None, http_delivery: (n % 4) as u8, http_k: (seed % 60_000) as u16 }
         })
 }
 
@@ -474,7 +499,7 @@ impl Prop for C01 {
     }
     fn meta(&self, tier: Tier) -> Meta {
         Meta {
-            rule: "cases = (source spec, chunker config, hash length, compression, buffered-chunks, writer in {library, CLI file, CLI stdin}, reader in {library mirror, CLI local, CLI over HTTP}, runtime shape / injected syscall delays). Oracle: clone output == generated source, header (decoded by the independent codec R2) records the true length and Blake2b-512. Variants: l1 (random), landmark (sizes 0,1,window-1,min-1,min,max-1,max,max+1), corner (a chunk whose compressed size equals its length), l1big (chunks and sources above the 1 MiB refill buffer), l2 (real bita binary, cross writer/reader pairs, HTTP). Non-trivial = >=2 chunks or one of the named corner classes; distinct by Blake2 of the canonical case.".into(),
+            rule: "cases = (source spec, chunker config, hash length, compression, buffered-chunks, writer in {library, CLI file, CLI stdin}, reader in {library mirror, CLI local, CLI over HTTP}, runtime shape / injected syscall delays). Oracle: clone output == generated source, header (decoded by the independent codec R2) records the true length and Blake2b-512. Variants: l1 (random), landmark (sizes 0,1,window-1,min-1,min,max-1,max,max+1), corner (a chunk whose compressed size equals its length), l1big (chunks and sources above the 1 MiB refill buffer), l2 (real bita binary, cross writer/reader pairs, HTTP — bodies at once, in paced pieces, or with the first chunk-data transfer broken off / unanswered and `--http-retry-count 2`). Non-trivial = >=2 chunks or one of the named corner classes; distinct by Blake2 of the canonical case.".into(),
             assumptions: vec![
                 "schedules are perturbed (runtime flavour, worker and blocking-thread counts, buffered-chunks, read fragmentation, injected syscall delays), not enumerated".into(),
                 "HTTP is plain HTTP/1.1 on loopback served by the harness's scripted server".into(),
